@@ -21,6 +21,7 @@ FINISH = dict(
     trusted=['zfpy', 'numpy', 'TLC'])
 
 KINDS = ('exc', 'short', 'empty')
+HDR_KINDS = ('exc', 'short', 'short4', 'empty')
 
 
 class OrderedBlob(FakeBlob):
@@ -70,7 +71,7 @@ def sample_calls(fc, rng, quick):
     if F['dim'] == 2:
         c = [('get_trace', [min(1, nx - 1), N, N]), ('get_trace', [nx - 1, 1, min(nz, 7)]), ('read_subplane', [0, min(nx, 6), 1, min(nz, 9)]),
              ('gen_trace_header', [1])]
-        return c
+        return c + header_calls(fc)
     tc = readcalls.tracecount(F)
     c = [('read_inline', [ni - 1]), ('read_crossline', [1]), ('read_zslice', [min(5, nz - 1)]),
          ('read_subvolume', [1, min(ni, 6), 0, min(nx, 5), 2, min(nz, 70)]), ('get_trace', [tc - 1, N, N]),
@@ -79,7 +80,38 @@ def sample_calls(fc, rng, quick):
          ('read_inline_number', [F['il']['s']]), ('get_trace_by_coord', [0, 2, 2 * min(nz, 6)])]
     if not quick:
         c += [('read_volume', []), ('read_crossline', [nx - 1]), ('read_zslice', [0]), ('read_inline', [0])]
-    return c
+    return c + header_calls(fc)
+
+
+def header_calls(fc):
+    """whole-array header reads: one stored word through get_tracefield_values, all of them through read_variant_headers,
+    one through the emulator's attributes()"""
+    if not fc.stored:
+        return []
+    k = int(fc.stored[len(fc.stored) // 2])
+    return [('hdr:tracefield', [k]), ('hdr:variant', []), ('hdr:attributes', [int(fc.stored[0])])]
+
+
+def expected_header(fc, op, a):
+    if op == 'hdr:variant':
+        return {int(k): fc.ref.footer_array(i).astype(np.int64) for i, k in enumerate(fc.stored)}
+    return fc.ref.footer_array(fc.stored.index(a[0])).astype(np.int64)
+
+
+def invoke(r, op, a, fc):
+    if not op.startswith('hdr:'):
+        return readcalls.invoke(r, op, a)
+    try:
+        if op == 'hdr:tracefield':
+            return ('hdrvalue', np.asarray(r.get_tracefield_values(a[0])).astype(np.int64).reshape(-1))
+        if op == 'hdr:attributes':
+            return ('hdrvalue', np.asarray(r.get_tracefield_1d(a[0])).astype(np.int64).reshape(-1))
+        r.read_variant_headers(include_padding=True)
+        return ('hdrvalue', {int(k): np.asarray(v).astype(np.int64).reshape(-1) for k, v in r.variant_headers.items()})
+    except BaseException as e:
+        if isinstance(e, (KeyboardInterrupt, SystemExit, MemoryError)):
+            raise
+        return ('raise', type(e).__name__, [c.__name__ for c in type(e).__mro__])
 
 
 def fresh(fc, backend, faults=None):
@@ -95,8 +127,19 @@ def fresh(fc, backend, faults=None):
     return r, h
 
 
-def judge(fc, out, ans, delivered):
+def judge(fc, out, ans, delivered, op=None, a=None):
     """property-level verdict for one faulted call"""
+    if op is not None and op.startswith('hdr:'):
+        if out[0] == 'raise':
+            return bool(delivered) or False, 'raise ' + out[1]
+        exp = expected_header(fc, op, a)
+        if isinstance(exp, dict):
+            same = isinstance(out[1], dict) and all(k in out[1] and np.array_equal(out[1][k], v) for k, v in exp.items())
+        else:
+            same = not isinstance(out[1], dict) and np.array_equal(out[1], exp)
+        if delivered:
+            return False, 'returned ' + ('the true arrays' if same else 'truncated / wrong header arrays')
+        return same, 'header arrays'
     grid = [x for x in ans['alts'] if x['kind'] == 'header']
     same, detail = readcalls.compare(out, ans['alts'], fc.ref, header_of=(lambda t: fc.header(grid[0]['grid'])) if grid else None)
     if delivered:
@@ -111,7 +154,7 @@ def _fault_worker(item):
     try:
         r, h = fresh(fc, backend, faults)
         with env.quiet():
-            out = readcalls.invoke(r, op, a)
+            out = invoke(r, op, a, fc)
         delivered = list(h.delivered)
         with env.quiet():
             try:
@@ -120,7 +163,7 @@ def _fault_worker(item):
                 pass
     except BaseException as e:        # the open itself is fault free; anything here is a harness problem
         return item, None, f'harness: {type(e).__name__}: {e}', []
-    ok, detail = judge(fc, out, answers[ci], delivered)
+    ok, detail = judge(fc, out, answers[ci], delivered, op, a)
     return item, ok, detail, delivered
 
 
@@ -137,22 +180,22 @@ def run(run):
     files, items = [], []
     for fi, fc in enumerate(cases):
         calls = sample_calls(fc, rng, quick)
-        answers = session.eval_calls([fc], [(0, op, a) for op, a in calls], run)
+        answers = session.eval_calls([fc], [(0, op, a) if not op.startswith('hdr:') else (0, 'read_volume' if fc.F['dim'] == 3 else 'get_trace', [] if fc.F['dim'] == 3 else [0, readcalls.NONE, readcalls.NONE]) for op, a in calls], run)
         files.append((fc, calls, answers))
         for backend in ('local', 'blob'):
             for ci, (op, a) in enumerate(calls):
                 # measure the fault-free read sequence and validate it against the model's
                 r, h = fresh(fc, backend)
                 with env.quiet():
-                    out = readcalls.invoke(r, op, a)
+                    out = invoke(r, op, a, fc)
                     reads = h.take()
                     r.close()
-                ok, detail = judge(fc, out, answers[ci], [])
+                ok, detail = judge(fc, out, answers[ci], [], op, a)
                 case = {'file': fc.label, 'backend': backend, 'op': op, 'args': a, 'faults': {}}
                 run.case(case, nontrivial=False)
                 run.check(ok, f'C17.fault-free-true[{op}]', case, detail, 'ideal')
                 mk = answers[ci]['model']
-                if mk['kind'] == 'value':
+                if mk['kind'] == 'value' and not op.startswith('hdr:'):
                     hb = fc.F['hblk'] * 4096
                     got = sorted((o - hb, n) for o, n, _ in reads if o < hb + fc.layout['data_blocks'] * 4096)
                     if got == sorted(tuple(x) for x in mk['reads']):
@@ -164,7 +207,7 @@ def run(run):
                 if n > (12 if quick else 40):
                     pos = sorted(set([0, 1, n - 1, n - 2] + rng.choice(n, size=8 if quick else 30, replace=False).tolist()))
                 for k in pos:
-                    for kind in KINDS:
+                    for kind in (HDR_KINDS if op.startswith('hdr:') else KINDS):
                         items.append((fi, backend, ci, {k: kind}))
                 # pairs of faults (second fault never reached when the first one surfaces - both must still end in raise)
                 for _ in range(2 if quick else 8):
@@ -225,7 +268,8 @@ def replay(run, rep):
     else:
         pool = c02.written_files(run, 'quick') + c02.written_2d(run, 'quick')
         fc = [c for c in session.load_files(pool, run) if c.label == case['file']][0]
-    ans = session.eval_calls([fc], [(0, case['op'], case['args'])], run)[0]
+    hdr = case['op'].startswith('hdr:')
+    ans = session.eval_calls([fc], [(0, case['op'], case['args'])], run)[0] if not hdr else None
     if 'order' in case:
         from seismic_zfp.read import SgzReader
         ob = OrderedBlob(fc.ref.bytes, fc.path, case['order'])
@@ -237,6 +281,6 @@ def replay(run, rep):
     else:
         r, h = fresh(fc, case['backend'], {int(k): v for k, v in case['faults'].items()})
         with env.quiet():
-            out = readcalls.invoke(r, case['op'], case['args'])
-        ok, detail = judge(fc, out, ans, list(h.delivered))
+            out = invoke(r, case['op'], case['args'], fc)
+        ok, detail = judge(fc, out, ans, list(h.delivered), case['op'], case['args'])
     run.check(ok, rep['clause'], case, detail, None)
